@@ -1048,6 +1048,9 @@ class OptionStore:
         new_value = opt.validate_value(new_value)
         if key in self.options:
             old_value = opt.value
+            # An option that stops yielding has changed even when its own,
+            # so far unused, value is the one it is set to.
+            changed |= opt.yielding
             opt.set_value(new_value)
             opt.yielding = False
         else:
